@@ -751,6 +751,22 @@ def flow_bucket(sel):
     return 'extract_function/flow:%s:%s' % ('nested' if sel.get('depth') else 'body', '+'.join(comp) or 'simple')
 
 
+def flow_inside(sel):
+    """what `_check_for_non_extractables` has to decide on in this run of statements (histogram key)"""
+    ins = list(sel.get('inside') or [])
+    tags = []
+    jumps = [i for i, w in enumerate(ins) if w in ('break', 'continue')]
+    if jumps:
+        tags.append('jump-behind-loop' if 'loop' in ins[:jumps[-1]] else 'jump')
+    elif 'loop' in ins:
+        tags.append('loop')
+    if 'return' in ins[:-1] or ('return' in ins and not sel.get('ends_return')):
+        tags.append('return')
+    if any(w in ins for w in ('def', 'class', 'lambda')):
+        tags.append('scope')
+    return '+'.join(tags) or 'plain'
+
+
 def flow_judge(ctx, r, origin='generated program'):
     """one record of gen.refactor_flow (worker or corpus) -> counts and failures; a corpus input and a generated
     one that fail alike are reported separately (one replay each)"""
@@ -761,7 +777,7 @@ def flow_judge(ctx, r, origin='generated program'):
     key = (r.get('key') or r.get('source'), tuple(sel['start']), tuple(sel['until']))
     bucket = flow_bucket(sel)
     if r['status'] == 'refused':
-        ctx.count('oracle-compile', key, nontrivial=False, bucket='extract_function/flow/refused')
+        ctx.count('oracle-compile', key, nontrivial=False, bucket='extract_function/flow/refused:' + flow_inside(sel))
         return
     if r['status'] == 'raised':
         # totality / exception classes are C07's statement: counted, not judged here
